@@ -376,6 +376,14 @@ func check(c sim.ChainCase) error {
 		},
 		Probe: func(ch *sim.Chain, st *sim.Step) error {
 			err := consensus.ValidateBlock(ch.Tip(), *st.Block, *st.Supp)
+			if st.Want == "accept" {
+				// control of a constructed probe: the same block without the forged parent
+				if err != nil {
+					return stats.Failf("C04/control/"+st.Label, "control block (%s) was rejected at height %d: %v", st.Label, ch.Height()+1, err)
+				}
+				rec.Case(stats.FP(st.Label, st.Block.ID()), false, "control:"+st.Label)
+				return nil
+			}
 			if err == nil {
 				return stats.Failf("C04/"+st.Label, "block whose parent element was altered (%s) was ACCEPTED at height %d", st.Label, ch.Height()+1)
 			}
